@@ -97,3 +97,7 @@ mod tests {
         assert_eq!(VALUE, metrics[0].get_metric()[0].get_gauge().get_value());
     }
 }
+
+// Verification hook: unit-level harnesses are compiled as a child module (only with `--cfg prometheus_verif`).
+#[cfg(all(prometheus_verif, any(kani, prometheus_verif_replay)))]
+include!(concat!(env!("PROMETHEUS_VERIF_INCRATE"), "/pulling_gauge.rs"));
